@@ -36,7 +36,9 @@ import (
 	"path/filepath"
 	"sort"
 	"strings"
+	"syscall"
 	"testing"
+	"time"
 	"unsafe"
 
 	"github.com/cilium/ebpf"
@@ -110,6 +112,10 @@ type c02Kern struct {
 	withDns bool
 	hosts   map[string][]netip.Addr
 	matcher *RoutingMatcher
+	seenImg map[[24]byte]struct{} // rule images already given to compileRoutingMatch / decodeGo
+	seenKey map[[16]byte]struct{} // addresses already given to Ipv6ByteSliceToUint32Array / keyWords
+	opts    func() c02Opts        // option combination for the next reload (nil: what the kernel probes chose)
+	trustIds bool                 // sync: an unchanged inner-map id is unchanged content (every install creates new inner maps)
 }
 
 func c02NewKern(name string, stats *VStats, log *logrus.Logger) *c02Kern {
@@ -153,7 +159,7 @@ func (k *c02Kern) sync() {
 			}
 			continue
 		}
-		if old, had := k.shSlots[s]; had && old == id && VThorough() {
+		if old, had := k.shSlots[s]; had && old == id && (VThorough() || k.trustIds) {
 			// thorough tier: an unchanged inner-map id is taken as unchanged content (every reload creates new
 			// inner maps); the quick tier re-reads every occupied slot, so an in-place update would be seen there
 			continue
@@ -336,6 +342,10 @@ func (k *c02Kern) reload(b *RoutingMatcherBuilder, cur **c02Gen) (*RoutingMatche
 	}
 	var err error
 	mode := "commit+inherit"
+	restoreOpts := func() {}
+	if k.opts != nil {
+		restoreOpts = k.opts().apply()
+	}
 	res := VRecover(func() string {
 		if k.plane == nil || k.gen%2 == 0 || k.withDns {
 			core := &controlPlaneCore{log: k.log, domainRouting: newDomainRoutingTracker()}
@@ -365,6 +375,7 @@ func (k *c02Kern) reload(b *RoutingMatcherBuilder, cur **c02Gen) (*RoutingMatche
 		}
 		return "ok"
 	})
+	restoreOpts()
 	k.gen++
 	if res != "ok" {
 		k.stats.Inc("reload.rejected_by_kernel_path")
@@ -421,6 +432,7 @@ func (k *c02Kern) reload(b *RoutingMatcherBuilder, cur **c02Gen) (*RoutingMatche
 	}
 	k.st.Emit(fmt.Sprintf("reserve %d %d", len(tries), start), "ok")
 	k.st.Emit("instcheck", "ok")
+	k.decodeOps(len(rules))
 	k.plane = plane
 	*cur = &c02Gen{plane: plane, compiled: compiled, tries: tries, start: start, rules: rules}
 	if len(rules) > k.maxSets {
@@ -577,6 +589,7 @@ func (k *c02Kern) packetX(m *RoutingMatcher, pk c01Pkt, v c02Variant, ipver cons
 		pname[15] = 0 // bpf_get_current_comm NUL-terminates within TASK_COMM_LEN
 	}
 	pk.dscp &= 0x3f // the hooks deliver tos >> 2
+	k.dkeyOp(dst16)
 	// domain bitmap
 	ubm := "-"
 	if !writeDom {
@@ -821,6 +834,18 @@ func TestVerifC02(t *testing.T) {
 		name2id[n] = uint8(i)
 	}
 	var allViol, allEnv []string
+	t0 := time.Now()
+	var timing []string
+	cpu := func() float64 {
+		var ru syscall.Rusage
+		_ = syscall.Getrusage(syscall.RUSAGE_SELF, &ru)
+		return float64(ru.Utime.Sec+ru.Stime.Sec) + float64(ru.Utime.Usec+ru.Stime.Usec)/1e6
+	}
+	c0 := cpu()
+	lap := func(name string) {
+		timing = append(timing, fmt.Sprintf("%s wall=%.1fs cpu=%.1fs", name, time.Since(t0).Seconds(), cpu()-c0))
+		t0, c0 = time.Now(), cpu()
+	}
 
 	// ---------------------------------------------------------------- main stream
 	k := c02NewKern("c02", stats, log)
@@ -841,6 +866,13 @@ func TestVerifC02(t *testing.T) {
 	}
 	var cur *c02Gen
 	for pi := 0; pi < nProg; pi++ {
+		if pi == 1 {
+			k.opts = func() c02Opts { return c02RandOpts(r, stats) }
+		}
+		if pi%9 == 4 && cur != nil {
+			// a large domain table before the reload: the clear has to page through it (257 / 1100 / 2600 entries)
+			k.bulkFillDomain([]int{257, 1100, 2600}[(pi/9)%3], uint32(pi))
+		}
 		mr := maxRules
 		switch {
 		case pi%10 == 0:
@@ -904,6 +936,7 @@ func TestVerifC02(t *testing.T) {
 	allEnv = append(allEnv, k.envFail...)
 	k.close()
 
+	lap("main")
 	// ---------------------------------------------------------------- empty-process-name replay (former finding #6, fix C02.fix1)
 	f := c02NewKern("c02f6", NewVStats(), log)
 	f.st.Emit(fmt.Sprintf("ringset %d", globalNextLpmIndex.Load()), "ok")
@@ -1005,6 +1038,7 @@ func TestVerifC02(t *testing.T) {
 	g.close()
 	_ = os.WriteFile(filepath.Join(VOutDir(), "c02big.note"), []byte(strings.Join(bigNote, "\n")+"\n"), 0o644)
 
+	lap("f6+big")
 	// ---------------------------------------------------------------- domain table across reloads (stale-bitmap stream)
 	// DNS answers go through the real DnsController -> tracker -> domain_routing_map; reloads re-number the
 	// domain match sets (rules inserted in front, a domain rule removed, order changed); the DNS cache is handed
@@ -1085,6 +1119,16 @@ func TestVerifC02(t *testing.T) {
 	d.close()
 	_ = os.WriteFile(filepath.Join(VOutDir(), "c02dom.note"), []byte(strings.Join(domNote, "\n")+"\n"), 0o644)
 
+	lap("dom")
+	// ---------------------------------------------------------------- rollback histories with injected faults (c02x_test.go)
+	{
+		rv, re, rn := c02RollStream(r, stats, log, name2id)
+		allViol = append(allViol, rv...)
+		allEnv = append(allEnv, re...)
+		_ = os.WriteFile(filepath.Join(VOutDir(), "c02roll.note"), []byte(strings.Join(rn, "\n")+"\n"), 0o644)
+	}
+
+	lap("roll")
 	// ---------------------------------------------------------------- kernel error paths (hand-written maps, kernel vs model only)
 	e := VOpenStream("c02err")
 	img := func(ms bpfMatchSet) string { return c02MatchSetImage(&ms) }
@@ -1135,5 +1179,6 @@ func TestVerifC02(t *testing.T) {
 
 	_ = os.WriteFile(filepath.Join(VOutDir(), "c02.goviol"), []byte(strings.Join(allViol, "\n")), 0o644)
 	_ = os.WriteFile(filepath.Join(VOutDir(), "c02.envfail"), []byte(strings.Join(allEnv, "\n")), 0o644)
+	_ = os.WriteFile(filepath.Join(VOutDir(), "c02.timing"), []byte(strings.Join(timing, "\n")+"\n"), 0o644)
 	stats.Write("c02")
 }
